@@ -336,6 +336,9 @@ def run_job(pid, job, tier, deadline, env_extra=None):
                     res.incomplete = True
                 elif kind == 'done':
                     got_done = True
+                elif kind == 'note':
+                    if len(res.notes) < 20:
+                        res.notes.append('%s: %s' % (job['name'], d))
                 elif kind == 'error':
                     res.errors.append('%s shard %d: %s' % (job['name'], i, d))
         if p.returncode not in (0, 1) or not got_done:
